@@ -229,7 +229,11 @@ func (r *Run) Violation(sig, what string, replay any) {
 	_ = os.MkdirAll(filepath.Dir(path), 0o755)
 	b, _ := json.MarshalIndent(map[string]any{"property": r.Prop, "signature": sig, "what": what, "case": replay,
 		"part": os.Getenv("VERIF_PART")}, "", " ")
-	_ = os.WriteFile(path, b, 0o644)
+	// several workers may report the same signature at the same time: write to a private file, then rename
+	tmp := fmt.Sprintf("%s.%d.tmp", path, os.Getpid())
+	if os.WriteFile(tmp, b, 0o644) == nil {
+		_ = os.Rename(tmp, path)
+	}
 	r.violations = append(r.violations, violation{Signature: sig, What: what, Replay: path})
 	fmt.Printf("VIOLATION-CANDIDATE property=%s signature=%q what=%q\n", r.Prop, sig, what)
 }
